@@ -1,7 +1,7 @@
 (* C07 -- PIP solver: the solution tree yields the lexicographic minimum for every parameter value.
    Audited statements only; the proofs are in PIP/*.v. *)
 From Coq Require Import List ZArith Bool.
-Require Import PPLV.Base.Sys PPLV.PIP.PipSpec PPLV.PIP.PipTree PPLV.PIP.PipRef PPLV.PIP.PipCuts.
+Require Import PPLV.Base.Sys PPLV.PIP.PipSpec PPLV.PIP.PipTree PPLV.PIP.PipRef PPLV.PIP.PipCuts PPLV.PIP.PipCert.
 Import ListNotations.
 Local Open Scope Z_scope.
 
@@ -27,6 +27,12 @@ Theorem lexmin_ref_exact : forall fuel pb q,
   (forall p, lexmin_ref fuel pb q = Found p -> lexmin pb q (proj (is_par pb) p)) /\
   (lexmin_ref fuel pb q = NoPoint -> bottom pb q).
 Proof. exact lexmin_ref_exact_thm. Qed.
+
+(* the per-problem certificate checker: when it says true, the tree gives the specified answer for
+   EVERY valuation of the context (false only means "not certified") *)
+Theorem tree_cert_sound : forall pb t,
+  tree_cert_b pb t = true -> forall q, context pb q -> answer pb q (eval_tree t q).
+Proof. exact tree_cert_sound_thm. Qed.
 
 (* Gomory cuts of generate_cut: valid for every integral solution of the row, and violated by the
    current fractional vertex; the two context rows define the artificial parameter as a floor *)
